@@ -541,8 +541,8 @@ def m_with_timezone(ex, site, a):
     old = dt.fields[1]
     if (not is_sym(off)) and (not is_sym(old)) and off == old: return cdt(dt.fields[0], off, zone, dt.fields[3] if len(dt.fields) > 3 else None)
     delta = sx(off) - sx(old)
-    opaque = ex.side.get('named_zone') and is_sym(off)
-    return cdt(shift_naive(dt.fields[0], delta), off, zone, utc_secs(dt) if opaque else None)
+    # a symbolic shift: carry the instant explicitly (re-deriving it from the shifted local fields is not tractable)
+    return cdt(shift_naive(dt.fields[0], delta), off, zone, utc_secs(dt) if is_sym(delta) else None)
 
 
 @model('DateTime::naive_local')
